@@ -4,12 +4,13 @@
    bytes = list N; pver = negotiated protocol version; ebs = the configured excessive block size
    (maxMessagePayload = max_message_payload ebs); net = the network magic. *)
 From Coq Require Import NArith ZArith List Bool.
-From BHS Require Import Sha256 WireBase WireBaseProofs WireMsg WireMsgProofs WireFrame WireSpec WireSpecProofs WireFrameProofs WireLenProofs.
+From BHS Require Import Sha256 WireBase WireBaseProofs WireMsg WireMsgProofs WireFrame WireSpec WireSpecProofs WireFrameProofs WireLenProofs WireSuffixProofs.
 Import ListNotations.
 Open Scope N_scope.
 
 (* ---- round trip, for ALL messages of the kinds version, verack, getaddr, addr, getblocks,
    getheaders, headers, inv, getdata, notfound, ping, pong, reject, sendheaders, feefilter, mempool
+   and, beyond the statement's list, filteradd, filterclear, filterload
    (wf_msg is false for protoconf/authch, whose payload the decoder ignores, and for the kinds
    outside the model).  rest_ok: any continuation, except that a version message encoded below
    BIP0037Version must end the buffer (its decoder looks at what remains). *)
@@ -55,6 +56,22 @@ Theorem C14_frame_roundtrip_total : forall pver net ebs m rest,
   exists fr, write_message pver net ebs m = Ok fr /\
              read_message pver net ebs (fr ++ rest) = FOk m (enc_payload pver m) rest.
 Proof. exact frame_roundtrip_total. Qed.
+
+(* ---- what is consumed: every payload decoder (version included, no assumption on the bytes) returns
+   a suffix of its input; ReadMessage leaves a suffix of the stream in the reader and an accepted frame
+   is exactly 24 header bytes ++ payload of the announced length ++ rest ---- *)
+Theorem C14_dec_payload_suffix : forall pver mmp k bs m r,
+  dec_payload pver mmp k bs = Ok (m, r) -> exists used, bs = used ++ r.
+Proof. exact dec_payload_sfx. Qed.
+
+Theorem C14_read_message_consumes : forall pver net ebs bs,
+  match read_message pver net ebs bs with
+  | FOk m payload rest =>
+    exists h, length h = 24%nat /\ bs = h ++ payload ++ rest /\ len payload = hdr_len bs /\
+              hdr_len bs <= max_message_payload ebs
+  | FErr e rest => exists used, bs = used ++ rest
+  end.
+Proof. exact read_message_consumes. Qed.
 
 (* ---- rejection, for every byte string ---- *)
 Theorem C14_must_reject : forall pver net ebs bs,
@@ -127,6 +144,8 @@ Print Assumptions C14_reencode_canonical.
 Print Assumptions C14_frame_roundtrip.
 Print Assumptions C14_payload_len_le_max.
 Print Assumptions C14_frame_roundtrip_total.
+Print Assumptions C14_dec_payload_suffix.
+Print Assumptions C14_read_message_consumes.
 Print Assumptions C14_must_reject.
 Print Assumptions C14_reject_oversize.
 Print Assumptions C14_reject_wrong_magic.
